@@ -274,28 +274,31 @@ def apply_ops(unit, fn_text, log):
         elif kind == 'edit':
             rule = a.get('rule', '?')
             if 'find' in a:
-                spans = rustlex.find_tokens(s, a['find'])
+                spans = rustlex.find_tokens_b(s, a['find'])
                 want = a.get('count', '1')
                 if not spans and a.get('optional') == '1':
-                    # optional=1: a rewrite to a shim that is skipped when the std call it replaces is
-                    # gone; the text then reaches the verifier as it is (and fails or is rejected there)
-                    log.append({'unit': unit.id, 'rule': rule, 'what': 'optional anchor `%s` absent, text left unchanged' % a['find']})
+                    log.append({'unit': unit.id, 'rule': rule, 'what': '`%s`: not present (optional)' % a['find']})
                     continue
                 if want == 'all':
                     if not spans:
                         raise ExtractError('%s: anchor not found: %s' % (unit.id, a['find']))
                 elif len(spans) != int(want):
                     raise ExtractError('%s: anchor `%s` found %d times, expected %s' % (unit.id, a['find'], len(spans), want))
-                # non-overlapping, replace from the end
-                for st, en in reversed(spans):
-                    s = s[:st] + payload_txt + s[en:]
-                log.append({'unit': unit.id, 'rule': rule, 'what': '`%s` -> `%s`' % (a['find'], ' '.join(payload_txt.split())[:200])})
+                # non-overlapping, replace from the end; `$name` in the payload is the bound token
+                for st, en, b in reversed(spans):
+                    rep = payload_txt
+                    for name, tok in b.items():
+                        rep = rep.replace('$$' + name, tok).replace('$' + name, tok)
+                    s = s[:st] + rep + s[en:]
+                log.append({'unit': unit.id, 'rule': rule, 'what': '`%s` x%d -> `%s`' % (a['find'], len(spans), ' '.join(payload_txt.split())[:200])})
             elif 'after' in a or 'before' in a:
                 key = 'after' if 'after' in a else 'before'
                 spans = rustlex.find_tokens(s, a[key])
                 nth = int(a.get('nth', '0'))
                 want = int(a.get('of', '1'))
                 if len(spans) != want:
+                    if a.get('optional') == '1':
+                        continue
                     raise ExtractError('%s: anchor `%s` found %d times, expected %d' % (unit.id, a[key], len(spans), want))
                 st, en = spans[nth]
                 pos = en if key == 'after' else st
@@ -314,7 +317,13 @@ def apply_ops(unit, fn_text, log):
                     rest = s[en:].lstrip()
                     return 'str' if rest[:1] == '"' else ('char' if rest[:1] == "'" else 'other')
                 spans = [sp for sp in spans if first_arg_kind(sp[1]) == a['argkind']]
+            if not spans and a.get('optional') == '1':
+                # optional=1 (as for //@edit): the std call is absent, the text is left as it is
+                log.append({'unit': unit.id, 'rule': a.get('rule', 'E3'), 'what': 'optional chain anchor `%s` absent, text left unchanged' % a['find']})
+                continue
             want = len(spans) if a.get('count') == 'all' and spans else int(a.get('count', '1'))
+            if not spans and a.get('optional') == '1':
+                continue
             if len(spans) != want:
                 raise ExtractError('%s: chain anchor `%s` found %d times, expected %d' % (unit.id, a['find'], len(spans), want))
             for st, en in reversed(spans):
@@ -356,7 +365,7 @@ def apply_ops(unit, fn_text, log):
                     if not sp or s[after:sp[0][0]].strip():
                         raise ExtractError('%s: chain suffix `%s` does not follow' % (unit.id, a['suffix']))
                     after = sp[0][1]
-                call = '%s(%s%s%s)' % (a['to'], recv.strip(), (', ' + args) if args else '',
+                call = '%s(%s%s%s)' % (a['to'], a.get('recvprefix', '') + recv.strip(), (', ' + args) if args else '',
                                         (', ' + a['extra']) if 'extra' in a else '')
                 s = s[:recv_start] + call + s[after:]
             log.append({'unit': unit.id, 'rule': a.get('rule', 'E3'), 'what': 'RECV%s..%s -> %s(RECV, ..)' % (a['find'], a.get('suffix', ''), a['to'])})
@@ -451,6 +460,8 @@ def apply_ops(unit, fn_text, log):
             spans = rustlex.find_tokens(s, a['find'])
             nth = int(a.get('nth', '0'))
             want = int(a.get('of', '1'))
+            if not spans and a.get('optional') == '1':
+                continue
             if len(spans) != want:
                 raise ExtractError('%s: closure anchor `%s` found %d times, expected %d' % (unit.id, a['find'], len(spans), want))
             st, en = spans[nth]
